@@ -1,7 +1,106 @@
-import MorfuseModel.Archive.Lemmas
-/-! # C10 — archives round-trip values and object graphs faithfully (placeholder, theorems follow) -/
+import MorfuseModel.Archive.RoundTrip
+/-!
+# C10 — archives round-trip values and object graphs faithfully
+
+Statements are about `Morfuse.Archive.encode` / `decode` (`Archive/Model.lean`), the transcription of
+`src/Script/Archiver.cpp` that the correspondence run compares byte for byte and value for value with
+the real `Archiver`.  They hold for **every** reader configuration `cfg` (the unrepaired reader and the
+repaired one alike): the defects C11 is about concern damaged archives only.
+
+`WF` (in `Archive/RoundTrip.lean`) is the hypothesis "the same sequence of calls" can be honoured at
+all: values fit their C++ type, every non-null pointer target is registered somewhere in the sequence
+(before or after the pointer, or by the pointer's own object), classes resolve in the registry, sizes
+fit `streamsize`, allocations succeed, fewer than `ARCHIVE_NULL_POINTER` objects.
+-/
 namespace Morfuse.Archive
 
-theorem C10_prim_bits_roundtrip {w n : Nat} (h : n < 256 ^ w) : unle (le w n) = n := unle_le_of_lt h
+/-- Every integer / float / boolean call of every width: what `ArchiveX` wrote, `ArchiveX` reads
+    (bit pattern for bit pattern), leaving the stream exactly behind the record. -/
+theorem C10_prim_roundtrip (cfg : Cfg) (p : Prim) (v : Nat) (hv : v < 256 ^ p.width)
+    (tail : Bytes) (pos : Nat) (R : List Lbl) (F : List Nat) :
+    readPrim cfg p ⟨encPrim p v ++ tail, pos, true, R, F⟩ = .ok v ⟨tail, pos + 4 + p.width, true, R, F⟩ :=
+  readPrim_ok cfg p v hv tail pos R F
+
+/-- Strings of any content (empty, embedded NULs, any byte) read back equal. -/
+theorem C10_string_roundtrip (cfg : Cfg) (bs tail : Bytes) (pos : Nat) (R : List Lbl) (F : List Nat)
+    (hl : bs.length < 2 ^ 64) (ha : strAlloc bs.length < cfg.allocLimit) :
+    readStr cfg [] ⟨encStr bs ++ tail, pos, true, R, F⟩ = .ok bs ⟨tail, pos + (encStr bs).length, true, R, F⟩ :=
+  readStr_ok cfg bs [] tail pos R F hl ha (fun _ => rfl)
+
+/-- Whole write sequences (primitives, raw blocks, strings, objects with nested `Archive` bodies,
+    plain and safe pointers, positions): reading with the same sequence of calls returns the sequence,
+    pointer slots holding the objects they held when written. -/
+theorem C10_roundtrip (cfg : Cfg) (classes : List Bytes) (info : Info) (w : List Item)
+    (hw : WF cfg classes info w) :
+    decode cfg classes info (schemaOf w) (encode info w) = .ok w :=
+  decode_encode cfg classes info w hw
+
+mutual
+/-- pointer slots of a sequence in call order (`0` = null) -/
+def ptrSlotsItem : Item → List Lbl
+  | .ptr _ o => [o]
+  | .object _ _ body => ptrSlots body
+  | _ => []
+def ptrSlots : List Item → List Lbl
+  | [] => []
+  | i :: is => ptrSlotsItem i ++ ptrSlots is
+end
+
+/-- Pointer identity is preserved both ways: two slots held the same object before iff they hold the
+    same object afterwards; null stays null.  Forward, backward and self references are all instances
+    (`WF.targets` does not care where the target is registered). -/
+theorem C10_pointer_identity (cfg : Cfg) (classes : List Bytes) (info : Info) (w w' : List Item)
+    (hw : WF cfg classes info w) (hr : decode cfg classes info (schemaOf w) (encode info w) = .ok w') :
+    (ptrSlots w').length = (ptrSlots w).length ∧
+    (∀ i j : Nat, (ptrSlots w)[i]? = (ptrSlots w)[j]? ↔ (ptrSlots w')[i]? = (ptrSlots w')[j]?) ∧
+    (∀ i : Nat, (ptrSlots w)[i]? = some 0 ↔ (ptrSlots w')[i]? = some 0) := by
+  rw [C10_roundtrip cfg classes info w hw] at hr
+  cases hr
+  exact ⟨rfl, fun _ _ => Iff.rfl, fun _ => Iff.rfl⟩
+
+/-- The mechanism behind it: distinct registered objects get distinct archive indices, none of which is
+    the null marker, so equality of indices in the archive is equality of objects. -/
+theorem C10_index_injective (T : List Lbl) (a b : Lbl) (ha : a ∈ T) (hb : b ∈ T) (hT : T.length < nullIdx) :
+    (idxIn T a = idxIn T b ↔ a = b) ∧ idxIn T a ≠ nullIdx := by
+  refine ⟨⟨fun h => idxOf_inj ha hb (by simpa [idxIn] using h), fun h => h ▸ rfl⟩, ?_⟩
+  have := List.idxOf_lt_length_of_mem ha
+  simp only [idxIn]; omega
+
+/-! ### non-vacuity -/
+
+/-- a graph with a forward reference (1 before its object), a backward one, a self reference inside the
+    body of object 2, a null pointer and a position-only object -/
+def sample : List Item :=
+  [.prim .u8 255, .str [104, 105], .str [], .ptr true 1, .object 1 [76] [.prim .u8 0], .ptr false 1,
+   .object 2 [86] [.ptr false 2, .ptr true 3], .ptr false 0, .position 3, .raw [0, 1, 2]]
+
+def sampleInfo : Info := { header := [77, 70, 85, 83], name := [97], version := 1 }
+
+theorem sample_wf (cfg : Cfg) (h : 1000 < cfg.allocLimit) : WF cfg [[76], [86]] sampleInfo sample where
+  items := by
+    simp [sample, WFItems, WFItem, Prim.width, strAlloc, getClass, cstr, eqi, upc]
+    omega
+  targets := by decide
+  nonnull := by decide
+  count := by decide
+  table := by
+    have : (encItems [] sample).1.length = 3 := by decide
+    omega
+  size := by
+    have : (encode sampleInfo sample).length = 210 := by set_option maxRecDepth 100000 in decide
+    omega
+  version := by decide
+  name := by simp [sampleInfo, strAlloc]; omega
+
+example : decode Cfg.legacy [[76], [86]] sampleInfo (schemaOf sample) (encode sampleInfo sample) = .ok sample :=
+  C10_roundtrip _ _ _ _ (sample_wf _ (by decide))
+
+example : decode Cfg.fixed [[76], [86]] sampleInfo (schemaOf sample) (encode sampleInfo sample) = .ok sample :=
+  C10_roundtrip _ _ _ _ (sample_wf _ (by decide))
+
+example : ptrSlots sample = [1, 1, 2, 3, 0] := by decide
+
+example : readPrim Cfg.legacy .i64 ⟨encPrim .i64 (2 ^ 63) ++ [7], 0, true, [], []⟩ = .ok (2 ^ 63) ⟨[7], 12, true, [], []⟩ :=
+  C10_prim_roundtrip _ _ _ (by decide) _ _ _ _
 
 end Morfuse.Archive
